@@ -88,31 +88,30 @@ def state_rule(ctx, P):
     for name, (refuse, errval) in ENTRY.items():
         f = P.fn(name, "decoder.c")
         ctx.touch(f)
-        conds = [c for c in f.find("If") if "->state" in f.canon(f.ch(c)[0], subst=False)]
-        if not conds:
+        # per state: can the function reach anything that changes the utterance, or does every path leave
+        # with the error value first?  (CFG reachability with the edges the state rules out removed:
+        # if-chain, disjunction, negation or switch all read the same)
+        mut = ("acmod_start_utt", "acmod_end_utt", "acmod_process_raw", "acmod_process_float32", "search_module_start", "search_module_finish", "search_module_step", "search_module_forward", "acmod_set_grow")
+        work = [c for c in f.calls() if f.nodes[c].get("callee") in mut]
+        subj = lambda fn, n: fn.canon(n).endswith("->state")
+        tests = [c for (s0, d0, c, pol) in f.cfg.cond_edges() if "->state" in f.canon(c)] + [c for (s0, d0, c, v_) in f.cfg.switch_edges() if c is not None and c >= 0 and subj(f, c)]
+        if not tests or not work:
             ctx.bad(r, key(f, "state-test"), f.where(f.root), "%s no longer tests the utterance state" % name)
             continue
-        ifn = conds[0]
         got = set()
-        unknown = False
-        for st in STATES:
-            v = eval_cond(f, f.ch(ifn)[0], st, P)
-            if v is None:
-                unknown = True
-            elif v:
+        badval = []
+        for sv, st in enumerate(STATES):
+            ex = paths.edges_excluded_when(f, subj, sv)
+            reach = f.cfg.path_exists((f.cfg.entry, 0), lambda e: e in work, start_after=False, removed_edges=ex)
+            if not reach:
                 got.add(st)
-        if unknown:
-            raise AnalysisIncomplete("state test of %s is not a combination of state comparisons" % name)
-        ctx.check(r, got == refuse, key(f, "refused-states"), f.where(ifn), "%s refuses to run in %s but must refuse in %s: %s" % (name, sorted(got), sorted(refuse), "calls in the missing state(s) run on an utterance that is not in progress" if refuse - got else "a legitimate call is refused"))
-        # the refusing branch returns the documented value
-        rets = [x for x in f.find("Return", root=f.ch(ifn)[1])]
-        okr = len(rets) == 1 and f.ch(rets[0]) and f.constval(f.ch(rets[0])[0]) == errval
-        ctx.check(r, okr, key(f, "refusal-value"), f.where(ifn), "%s does not return %d when it refuses the call" % (name, errval))
-        # nothing that changes the utterance happens before the test
-        mut = ("acmod_start_utt", "acmod_end_utt", "acmod_process_raw", "acmod_process_float32", "search_module_start", "search_module_finish", "search_module_step", "search_module_forward", "acmod_set_grow")
-        early = [c for c in f.calls() if f.nodes[c].get("callee") in mut and not paths.always_before(f, c, lambda e, cn=f.ch(ifn)[0]: e == cn or e in set(f.walk(cn)))]
-        ctx.check(r, not early, key(f, "test-first"), f.where(early[0]) if early else f.where(ifn), "%s touches the utterance before testing its state" % name)
-
+                # every way out in this state returns the documented value
+                for rt in f.find("Return"):
+                    if f.cfg.path_exists((f.cfg.entry, 0), lambda e, rt=rt: e == rt, start_after=False, removed_edges=ex):
+                        if not f.ch(rt) or f.constval(f.ch(rt)[0]) != errval:
+                            badval.append((st, f.line(rt)))
+        ctx.check(r, got == refuse, key(f, "refused-states"), f.where(tests[0]), "%s refuses to run in %s but must refuse in %s: calls in the missing state(s) run on an utterance that is not in progress, or legitimate calls are rejected" % (name, sorted(got), sorted(refuse)))
+        ctx.check(r, not badval, key(f, "refusal-value"), f.where(tests[0]), "%s does not return %d when it refuses the call (%s)" % (name, errval, badval[:3]))
 
 # -------------------------------------------------------------------------------- nullable fields
 NULLABLE = ("d->search", "d->align")
